@@ -313,7 +313,7 @@ class AtomNRing(AtomConstraint):
                     n += 1
         if self.negate and self.NringCN(n):
             raise MolQueryError('AtomNRing: False.')
-        elif not self.NringCN(n):
+        elif not self.negate and not self.NringCN(n):
             raise MolQueryError('AtomNRing: False.')
 
     def __repr__(self):
